@@ -11,7 +11,7 @@ from harness import tlc, obs, strings as S, proj
 from harness.tlc import from_atoms, to_atoms
 from harness.props import c12, c19
 
-POOL = ['\\begin{myv}$ {\\end{myv} \\a{z}', '\\textbf a \\label b', '\\begin{e}[o]{r}t\\end{e}', '\\a{x} $y$', '\\left( x \\right]',
+POOL = ['\\begin{myv}$ {\\end{myv} \\a{z}', '$m$ {g} \\textbf a \\label b', '\\begin{e}[o]{r}t\\end{e}', '\\a{x} $y$', '\\left( x \\right]',
         '\\section[s]{t}\n\n\\begin{itemize}\\item i\\end{itemize}', '$m$ \\[d\\] \\(p\\)', '\\def\\x y %c\nz']
 SKIP = ('myv',)
 FORMS = ['str', 'list', 'tuple', 'gen', 'file', 'chars', 'lines']
@@ -61,10 +61,15 @@ def parse_obs(x, skip=SKIP):
     return soup, {'out': str(soup), 'flat': proj.flat_seq(soup.expr._contents)}
 
 
-def snapshot(doc):
+def snapshot(doc, names=False):
     if isinstance(doc, Failed):
         return {'out': str(doc), 'flat': []}
-    return {'out': str(doc), 'flat': proj.flat_seq(doc.expr._contents)}
+    o = {'out': str(doc), 'flat': proj.flat_seq(doc.expr._contents)}
+    if names:       # what search sees: the name, opening and closing of every node (class-level state would leak here)
+        from TexSoup.data import TexNode
+        o['names'] = [[str(n.name), str(getattr(n.expr, 'begin', '')), str(getattr(n.expr, 'end', ''))]
+                      for n in doc.descendants if isinstance(n, TexNode)]
+    return o
 
 
 def do_edit(soup, e):
@@ -109,7 +114,7 @@ def run_history(src_id, form, edits, skip=SKIP):
             soup, o = parse_obs(str(soup), skip)
         else:
             do_edit(soup, e)
-    return snapshot(soup)
+    return snapshot(soup, names=True)
 
 
 def _session(rec):
@@ -127,9 +132,12 @@ def _session(rec):
                 # right after a parse the document must be what the reader machine computed for (source, option) - a
                 # reference that no earlier step of this session can have contaminated
                 want = rec['expect']['%d/%s' % (sid, st['x'][2])]
-                got = snapshot(slots[d])
+                got = snapshot(slots[d], names=True)
+                gnames = sorted(got.pop('names', []))
                 if got != want:
                     return {'step': n, 'why': 'parse-depends-on-history', 'slot': d, 'got': got['out'], 'want': want['out']}
+                if want['flat'] and gnames != proj.names_from_flat(want['flat']):
+                    return {'step': n, 'why': 'names-depend-on-history', 'slot': d, 'got': gnames[:6], 'want': proj.names_from_flat(want['flat'])[:6]}
             elif a == 'edit':
                 if not isinstance(slots[d], Failed):
                     do_edit(slots[d], st['x'][0])
@@ -146,7 +154,7 @@ def _session(rec):
             if slots[k] is None:
                 continue
             want = run_history(hist[k][0], hist[k][1], hist[k][2], hist[k][3])
-            got = snapshot(slots[k])
+            got = snapshot(slots[k], names=True)
             if got != want:
                 return {'step': n, 'why': 'isolation' if k != d else 'history', 'slot': k, 'got': got['out'], 'want': want['out']}
         if slots[1] is not None and slots[2] is not None and not isinstance(slots[1], Failed) and not isinstance(slots[2], Failed):
